@@ -88,6 +88,9 @@ ERROR_CLASSES: dict[str, dict[str, Any]] = {
     "undefined_macro": {"scope": "asm", "text": "undefined_macro_zq(1)"},
     "too_few_macro_args": {"scope": "asm", "text": ".macro two_zq(a_zq, b_zq) {\n    .db a_zq, b_zq\n}\ntwo_zq(1)"},
     "unsupported_addressing_mode": {"scope": "asm", "text": "nop #0"},
+    "index_after_immediate": {"scope": "asm", "text": "lda #0x10,x"},
+    "index_after_immediate_y": {"scope": "asm", "text": "cpx #0x02,y"},
+    "index_on_long_indirect_x": {"scope": "asm", "text": "lda [0x10],x"},
     "unsupported_width_imm": {"scope": "asm", "text": "lda.l #0x123456"},
     "unsupported_width_jmp": {"scope": "asm", "text": "jmp.b 0x12"},
     "branch_out_of_range": {"scope": "asm", "text": "bra far_zq\n.dw " + ", ".join(["0"] * 100) + "\nfar_zq:"},
@@ -155,7 +158,14 @@ def gen_case(cseed: int, tier: str) -> dict[str, Any]:
     if "defines" in feats:
         defines = [("DEF0", w.choice(["0x12", "7", "0b101"])), ("DEF1", w.choice(["0", "1"])), ("DEF2", w.choice(["1", "2", "3"]))][: w.randrange(1, 4)]
     prog = progen.gen_program(w, mapping, feats, defines, size=w.choice([6, 10, 14]) if w.random() < 0.95 else 70)
-    return {"type": "base", "prog": prog.to_record(), "seed": cseed, "copier": w.random() < 0.5, "cli_format": w.choice(["ips", "ips", "sfc"]), "tier": tier}
+    padded = w.random() < (0.03 if tier == "quick" else 0.08)
+    if padded:
+        # a source of more than 64 KiB / 128 KiB: comment lines (with multi-byte characters) right after the
+        # first statement; whatever reads the file in pieces must still see the statements after them
+        line = "; padding " + "\u00e9" * 20 + " " + "x" * 60
+        n = w.choice([700, 1400, 2100])
+        prog.root.insert(1, {"k": "comment", "t": "\n".join([line] * n), "keep": True})
+    return {"type": "base", "prog": prog.to_record(), "seed": cseed, "copier": w.random() < 0.5, "cli_format": w.choice(["ips", "ips", "sfc"]), "tier": tier, "padded": padded}
 
 
 def plan(tier: str) -> dict[str, Any]:
@@ -365,7 +375,9 @@ def sub_cases(case: dict[str, Any], stats: Stats) -> Iterator[dict[str, Any]]:
         for e in ENTRIES:
             yield dict(base, spec=specs[e], insert={"class": klass, "slot": s0}, knobs={}, repeat=rng.random() < 0.25)
         others = [s for s in ok_slots if s is not s0]
-        if case.get("tier") != "thorough" and len(others) > SLOTS_PER_CLASS:
+        if case.get("padded"):
+            others = others[-2:]  # every run scans > 64 KiB: the slots after the padding are the ones that matter
+        elif case.get("tier") != "thorough" and len(others) > SLOTS_PER_CLASS:
             # keep every distinct context kind, then fill up by seed
             by_ctx: dict[str, dict[str, Any]] = {}
             for s in others:
